@@ -42,6 +42,9 @@ Step ==
      CASE t.ev = "scenario" -> cat' = {} /\ mem' = Empty /\ ref' = <<>> /\ order' = Empty /\ viol' = viol
        [] t.ev = "joined" -> /\ mem' = (IF t.ok = 1 THEN Put(mem, ToString(t.node), t.addr) ELSE mem)
                              /\ viol' = viol \cup (IF t.ok = 1 THEN {} ELSE {<<l, "JoinFailed">>}) /\ UNCHANGED <<cat, ref, order>>
+       \* a join attempt whose handshake may be lost: acknowledged (the node reports itself ready) or refused
+       [] t.ev = "joinattempt" -> /\ mem' = (IF t.ack = 1 THEN Put(mem, ToString(t.node), t.addr) ELSE mem)
+                                  /\ viol' = viol /\ UNCHANGED <<cat, ref, order>>
        [] t.ev = "left" -> /\ mem' = (IF t.ok = 1 THEN Drop(mem, ToString(t.node)) ELSE mem)
                            /\ viol' = viol /\ UNCHANGED <<cat, ref, order>>
        [] t.ev = "create" -> /\ cat' = (IF t.ok = 1 THEN cat \cup {t.id} ELSE cat) /\ ref' = <<>>
